@@ -5,6 +5,7 @@ import ast
 from ..index import unparse, iter_own_nodes, AnalysisError
 from ..cfg import calls_in_node
 from ..framework import stores_to_name, assigned_values
+from .. import exprs as X
 from . import common
 
 EXPLANATION = (
@@ -142,7 +143,12 @@ def rule_handover(chk):
     chk.req(okflag, "C12.handover", "Destinations.add:first-add-flag-set-once-never-cleared", chk.where(add, ft.lineno),
             good="flag False in __init__, set True on every first-add path, no other writer", fail="the first-add flag is not set exactly on the first add / is written elsewhere")
     # capture before replacement
-    caps = [n for n in cfg.live if isinstance(n.ast, ast.Assign) and isinstance(n.ast.targets[0], ast.Name) and "self._destinations[0].messages" in unparse(n.ast.value)]
+    caps = [n for n in cfg.live if isinstance(n.ast, ast.Assign) and isinstance(n.ast.targets[0], ast.Name) and "self._destinations[0].messages" in unparse(X.inline(add, n.ast.value))]
+    cap_is_destination = False
+    if not caps:
+        # the buffering destination itself is captured (`buffer = self._destinations[0]`) and its .messages read later
+        caps = [n for n in cfg.live if isinstance(n.ast, ast.Assign) and isinstance(n.ast.targets[0], ast.Name) and unparse(n.ast.value) == "self._destinations[0]"]
+        cap_is_destination = bool(caps)
     repl = [n for n in cfg.live if isinstance(n.ast, ast.Assign) and any(common.is_self_attr(t, "_destinations") for t in n.ast.targets)]
     inplace = [n for n in cfg.live for c, m in calls_in_node(n) if isinstance(c.func, ast.Attribute) and common.is_self_attr(c.func.value, "_destinations")
                and c.func.attr in ("clear", "pop", "remove", "__delitem__")]
@@ -173,6 +179,8 @@ def rule_handover(chk):
     chk.req(okinst, "C12.handover", "Destinations.add:installs-given-destinations-exactly-once", chk.where(add),
             good="_destinations.extend(<given destinations>) exactly once on every path", fail="installation of the given destinations per add ranges %s / is not extend(%s)" % (rng, dparam))
     loops = [n for n in cfg.live if n.kind == "for_next" and isinstance(n.ast.iter, ast.Name) and n.ast.iter.id == capname]
+    if cap_is_destination:
+        loops = [n for n in cfg.live if n.kind == "for_next" and unparse(n.ast.iter) == "%s.messages" % capname]
     chk.need(len(loops) == 1, "Destinations.add: re-delivery loop over the captured list not found")
     head = loops[0]
     okorder = cfg.precedes([n for n, c in inst], [head])[0] and cfg.must_pass([cfg.entry], [n for n, c in inst], repl, avoid_edges={(ft, other)})[0]
